@@ -264,8 +264,6 @@ func (c *Client) SearchLocksVerifiable(limit int, cached bool) (ourLocks, theirL
 			Limit: limit,
 		}
 
-		c.cache.Clear()
-
 		for {
 			list, status, err := c.client.SearchVerifiable(c.Remote, body)
 			switch status {
@@ -287,7 +285,6 @@ func (c *Client) SearchLocksVerifiable(limit int, cached bool) (ourLocks, theirL
 			}
 
 			for _, l := range list.Ours {
-				c.cache.Add(l)
 				ourLocks = append(ourLocks, l)
 				if limit > 0 && (len(ourLocks)+len(theirLocks)) >= limit {
 					return ourLocks, theirLocks, nil
@@ -295,7 +292,6 @@ func (c *Client) SearchLocksVerifiable(limit int, cached bool) (ourLocks, theirL
 			}
 
 			for _, l := range list.Theirs {
-				c.cache.Add(l)
 				theirLocks = append(theirLocks, l)
 				if limit > 0 && (len(ourLocks)+len(theirLocks)) >= limit {
 					return ourLocks, theirLocks, nil
@@ -307,6 +303,16 @@ func (c *Client) SearchLocksVerifiable(limit int, cached bool) (ourLocks, theirL
 			} else {
 				break
 			}
+		}
+
+		// Refresh the cache from a complete answer only: a listing that
+		// failed part of the way says nothing about which locks are held.
+		c.cache.Clear()
+		for _, l := range ourLocks {
+			c.cache.Add(l)
+		}
+		for _, l := range theirLocks {
+			c.cache.Add(l)
 		}
 
 		if limit == 0 {
